@@ -136,10 +136,12 @@ def h_move(pa: bool, pb: bool, py: bool, f0: bool, f1: bool, f2: bool, f3: bool)
                     idx.storage_map.add_remote(ObjectStorage(pre, R0))
                 return
             idx.storage_map.add_cache(ObjectStorage((), caches[0]))
-            idx.storage_map.add_remote(ObjectStorage((), R0))
             if MAPPING == 4:
+                # the only remote is registered for a prefix *inside* the unloaded directory object (nothing at a shorter prefix loads it first)
                 idx.storage_map.add_remote(ObjectStorage(("x", "s"), R1))
-            elif MAPPING >= 1:
+                return
+            idx.storage_map.add_remote(ObjectStorage((), R0))
+            if MAPPING >= 1:
                 idx.storage_map.add_remote(ObjectStorage(("x",), R1))
             if MAPPING == 2:
                 idx.storage_map.add_cache(ObjectStorage(("x",), caches[1]))
@@ -181,7 +183,6 @@ def h_move(pa: bool, pb: bool, py: bool, f0: bool, f1: bool, f2: bool, f3: bool)
             if MAPPING == 4:
                 xs_objs = {_md5(v) for k, v in files.items() if k.startswith("x/s/")}
                 want[id(R1)] |= xs_objs
-                want[id(R0)] |= y_objs | x_objs
             else:
                 want[id(R1)] |= x_objs
                 want[id(R0)] |= y_objs
@@ -232,6 +233,10 @@ def h_move(pa: bool, pb: bool, py: bool, f0: bool, f1: bool, f2: bool, f3: bool)
                 violation("push-counts-do-not-add-up", (pushed1, failed1, pushed2, total))
             if n_fail_events and failed1 == 0:
                 violation("failed-uploads-not-counted", (n_fail_events, failed1))
+        if MAPPING == 4:
+            journal({"files": sorted(files), "mapping": MAPPING, "failed": sorted(o[:6] for o, v in decided.items() if v),
+                     "counts": [pushed1, failed1, pushed2]}, nontrivial=True)
+            return True
         # fetch into empty caches and check out
         try:
             with NoTracing():
